@@ -381,6 +381,16 @@ def check_stack(h: Harness, g, desc: str):
     except GeneticEngineError:
         return
     choices, weights, _ = probe.record
+    # the weight the chooser gives a symbol is the grammar's (normalised, level-A checked) production weight -- zero included --
+    # and 1 for stack types that are not grammar nodes
+    gw = g.get_weights()
+    expected = [gw.get(c, 1) for c in choices]
+    if [float(w) for w in weights] != [float(w) for w in expected]:
+        k = next(i for i, (a, b_) in enumerate(zip(weights, expected)) if float(a) != float(b_))
+        h.fail(site, "zero-weight-production-chosen" if float(expected[k]) == 0 else "chooser-ignores-production-weight",
+               f"the stack symbol chooser draws {getattr(choices[k], '__name__', str(choices[k]))} with weight {weights[k]}, "
+               f"the grammar gives it weight {expected[k]} ({desc})", [desc, k])
+        return
     fr = [Fraction(w) for w in weights]
     den = lcm(*[f.denominator for f in fr])
     if den & (den - 1):
@@ -442,8 +452,7 @@ def run(h: Harness):
         g = run_extraction(h, nodes, stream, n_extract, extra, tag)
         if g is not None and stream == "D" and choosers:
             check_ptd(h, g, nodes, budget)
-            if rng.random() < 0.4:
-                check_stack(h, g, describe(nodes, []))
+            check_stack(h, g, describe(nodes, []))
 
     # -- corpus
     full(corpus_flat([0, 1]), "D", 3)
